@@ -202,6 +202,11 @@ class Sim:
         world = self.scenario.get("world", {})
         if world.get("fc_mode", "cer") == "text":
             fulfilled = prf("fc", key, text) % 2 == 0
+            if world.get("fc_anonymous"):
+                # an evaluator that answers with two shared constant objects and no message of its own
+                if fulfilled not in self.anonymous_results:
+                    self.anonymous_results[fulfilled] = EvaluatedFormatConstraint(fulfilled, None)
+                return self.anonymous_results[fulfilled]
             return EvaluatedFormatConstraint(fulfilled, None if fulfilled else f"E{key}|{text!r}")
         try:
             entry = CER.get()["format_constraints"][key]
@@ -359,12 +364,58 @@ def _make_cer_peers(sim):
     return [SimCerRc(), SimCerFc(), SimCerHints(), SimCerPackages()]
 
 
+def _make_dict_peers(sim, cer):
+    """
+    the shipped Dict based ("hardcoded") evaluators, built from one content evaluation result, with nothing but a
+    latency in front of them. Their format-constraint results are *shared objects* handed out again and again, and
+    carry no message of their own when the content evaluation result has none.
+    """
+    from ahbicht.content_evaluation.evaluator_factory import create_hardcoded_evaluators
+    from ahbicht.content_evaluation.fc_evaluators import DictBasedFcEvaluator
+    from ahbicht.content_evaluation.rc_evaluators import DictBasedRcEvaluator
+    from ahbicht.expressions.hints_provider import DictBasedHintsProvider
+    from ahbicht.expressions.package_expansion import DictBasedPackageResolver
+    from ahbicht.models.content_evaluation_result import ContentEvaluationResultSchema
+
+    loaded = ContentEvaluationResultSchema().load(cer)
+    create_hardcoded_evaluators(loaded)  # (exercises the factory; the instances below add the latency)
+
+    class SimDictRc(DictBasedRcEvaluator):
+        async def evaluate_single_condition(self, condition_key, evaluatable_data, context=None):
+            await sim.pause("rc", condition_key)
+            return await super().evaluate_single_condition(condition_key, evaluatable_data, context)
+
+    class SimDictFc(DictBasedFcEvaluator):
+        async def evaluate_single_format_constraint(self, condition_key):
+            await sim.pause("fc", condition_key)
+            return await super().evaluate_single_format_constraint(condition_key)
+
+    class SimDictHints(DictBasedHintsProvider):
+        async def get_hint_text(self, condition_key):
+            await sim.pause("hint", condition_key)
+            return await super().get_hint_text(condition_key)
+
+    class SimDictPackages(DictBasedPackageResolver):
+        async def get_condition_expression(self, package_key):
+            await sim.pause("pkg", package_key)
+            return await super().get_condition_expression(package_key)
+
+    return [
+        SimDictRc(loaded.requirement_constraints),
+        SimDictFc(loaded.format_constraints),
+        SimDictHints(loaded.hints),
+        SimDictPackages(loaded.packages or {}),
+    ]
+
+
 def install_world(sim):
     """builds the peers described by scenario['world'] and configures the (process global) injector"""
     world = sim.scenario.get("world", {})
     peer_sets = []
     if world.get("flavour", "sim") == "cer":
         peer_sets.append(_make_cer_peers(sim))
+    elif world.get("flavour") == "dict":
+        peer_sets.append(_make_dict_peers(sim, world["dict_cer"]))
     else:
         # one set of peers per (format, format version) the process serves; a request belongs to exactly one of them
         for index in range(2 if world.get("two_formats") else 1):
